@@ -63,4 +63,55 @@ theorem C16_cleanup_restart_guards_are_source (sc sr ss er nv fv : Bool) :
     sugRestartGuard false false sc sr ss er false = !sr := by
   cases sc <;> cases sr <;> exact ⟨rfl, rfl⟩
 
+/-! ## the trial controller's `Reconcile`: finalizer, Created, `reconcileTrial` -/
+
+def trialPlanGen (v : World) (k : Key2) (now : Nat) : Prog :=
+  match findTrial v k with
+  | none => .done .ok
+  | some t =>
+    let F (g : Bool → Bool → Bool → Bool → Bool → Bool → Bool → Bool) : Bool := g t.deleted t.fin false false false false false
+    let due : Bool := F addFinalizerGuard || F removeFinalizerGuard
+    let R (g : Bool → Bool → Bool → Bool → Bool → Bool → Bool → Bool → Bool) : Bool := g false false false due (tHas t .created) false false false
+    if R callUpdateFinalizersGuard then
+      -- `updateFinalizers`: the database clean-up first when the Trial is being deleted, then the finalizer write
+      if F dbCleanupGuard then
+        .step (.dbDelete k.name) (.step (.trialUpdateFin k t.rv false) (.done .requeue) (.done .err)) (.done .err)
+      else .step (.trialUpdateFin k t.rv true) (.done .requeue) (.done .err)
+    else if R markTrialCreatedGuard then
+      trialFinish t { t.st with started := true, conds := Cond.set t.st.conds .created true rTrialCreated now }
+    else if R callReconcileTrialGuard then
+      match findJob v k with
+      | none =>
+        if tCompleted t then trialFinish t t.st
+        else .step (.jobCreate k) (trialAfterJob v t .running now) (.done .err)
+      | some j =>
+        if tCompleted t && !t.retain then .step (.jobDelete k) (.done .ok) (.done .err)
+        else trialAfterJob v t j.state now
+    else .done .ok
+
+theorem C07_reconcile_guards_known :
+    addFinalizerGuardUnknown = [] ∧ removeFinalizerGuardUnknown = [] ∧ dbCleanupGuardUnknown = [] ∧ finalizerWriteGuardUnknown = [] ∧
+    callUpdateFinalizersGuardUnknown = [] ∧ markTrialCreatedGuardUnknown = [] ∧ callReconcileTrialGuardUnknown = [] ∧
+    addFinalizerGuardSites = 1 ∧ removeFinalizerGuardSites = 1 ∧ dbCleanupGuardSites = 1 ∧ finalizerWriteGuardSites = 1 ∧
+    callUpdateFinalizersGuardSites = 1 ∧ markTrialCreatedGuardSites = 1 ∧ callReconcileTrialGuardSites = 1 := by decide
+
+set_option linter.unusedSimpArgs false in
+/-- **C07_reconcile_is_source**: the model's trial reconcile — finalizer added for a live Trial without it, database clean-up
+    and then release for a Trial under deletion that holds it, Created, then `reconcileTrial` — is the function rebuilt from the
+    regenerated path conditions of `needUpdateFinalizers`, `updateFinalizers` and `Reconcile` -/
+theorem C07_reconcile_is_source (v : World) (k : Key2) (now : Nat) : trialPlan v k now = trialPlanGen v k now := by
+  unfold trialPlan trialPlanGen addFinalizerGuard removeFinalizerGuard dbCleanupGuard callUpdateFinalizersGuard
+    markTrialCreatedGuard callReconcileTrialGuard
+  cases ht : findTrial v k with
+  | none => rfl
+  | some t =>
+    cases hd : t.deleted <;> cases hf : t.fin <;> cases hc : tHas t .created <;> simp [hd, hf, hc] <;>
+      (cases hj : findJob v k <;> rfl)
+
+/-- the finalizer is written after a successful clean-up or for a Trial that is not being deleted, never after a failed one -/
+theorem C07_finalizer_write_guard_is_source (deleting hasFin isK f1 f2 isDel : Bool) :
+    finalizerWriteGuard deleting hasFin isK f1 f2 isDel false = (!deleting || !f1) := by
+  cases deleting <;> cases f1 <;> rfl
+
+
 end Katib.Gen
